@@ -73,10 +73,12 @@ type edgeIn struct {
 	cond string
 	st   *State
 	ctl  string // path condition without the keep clauses assumed at cut points
+	br   string // branch decisions taken since the last cut point (no assumptions)
 }
 
 type retInfo struct {
 	cond string
+	br   string // branch decisions since the body was entered
 	st   *State
 	val  Val
 }
@@ -121,6 +123,8 @@ type frame struct {
 	ctlOut   map[*ssa.BasicBlock]string
 	noCtl    bool
 	edgeCtl  string
+	br       string // branch decisions since the last cut point
+	edgeBr   string
 	inBlock  bool // executing instructions of curBlock (call-site name lookups may use same-block references)
 }
 
@@ -248,7 +252,7 @@ func (x *Exec) run(fn *ssa.Function, args []Val, free []Val, st *State, cond str
 		f.collectNames()
 	}
 	order := f.blockOrder()
-	f.in[fn.Blocks[0]] = []edgeIn{{from: nil, cond: cond, st: st, ctl: cond}}
+	f.in[fn.Blocks[0]] = []edgeIn{{from: nil, cond: cond, st: st, ctl: cond, br: "true"}}
 	for _, b := range order {
 		f.execBlock(b)
 	}
@@ -268,12 +272,16 @@ func (f *frame) mergeReturns() runResult {
 	cond := x.vc.Def("ret", "Bool", Or(conds...))
 	var edges []edgeIn
 	for _, r := range f.rets {
-		edges = append(edges, edgeIn{cond: r.cond, st: r.st})
+		g := r.cond
+		if !f.top && r.br != "" {
+			g = r.br
+		}
+		edges = append(edges, edgeIn{cond: g, st: r.st})
 	}
 	st := x.mergeStates(edges)
 	val := f.rets[len(f.rets)-1].val
 	for i := len(f.rets) - 2; i >= 0; i-- {
-		val = x.vc.iteVal(f.rets[i].cond, f.rets[i].val, val)
+		val = x.vc.iteVal(edges[i].cond, f.rets[i].val, val)
 	}
 	val = x.nameVal("rv", val)
 	return runResult{val: val, st: st, cond: cond}
@@ -464,7 +472,25 @@ func (f *frame) execBlock(b *ssa.BasicBlock) {
 		}
 		f.ctl = x.vc.Def("ctl", "Bool", c)
 	}
-	f.st = x.mergeStates(edges)
+	{
+		var bb []string
+		for _, e := range edges {
+			bb = append(bb, e.br)
+		}
+		f.br = x.vc.Def("br", "Bool", Or(bb...))
+	}
+	// inlined bodies (loop-free) merge values and states under the branch decisions taken
+	// since the body was entered, not under absolute path conditions: the merged terms then
+	// do not drag the caller's whole history into every later query that mentions them
+	guards := edges
+	if !f.top {
+		guards = make([]edgeIn, len(edges))
+		copy(guards, edges)
+		for i := range guards {
+			guards[i].cond = guards[i].br
+		}
+	}
+	f.st = x.mergeStates(guards)
 	f.curBlock = b
 	f.dead = false
 
@@ -478,8 +504,8 @@ func (f *frame) execBlock(b *ssa.BasicBlock) {
 		}
 		var v Val
 		first := true
-		for i := len(edges) - 1; i >= 0; i-- {
-			e := edges[i]
+		for i := len(guards) - 1; i >= 0; i-- {
+			e := guards[i]
 			ev := f.phiOperand(phi, e.from)
 			if first {
 				v = ev
@@ -495,7 +521,7 @@ func (f *frame) execBlock(b *ssa.BasicBlock) {
 	}
 	if li != nil {
 		f.loopHeader(li, phiVals)
-	} else if f.top && len(edges) > 1 && x.localMode {
+	} else if f.top && len(edges) > 1 && x.localMode && !f.simpleJoin(b) {
 		f.keepAt(fmt.Sprintf("b%d", b.Index), x.prog.pos(firstPos(b)), b)
 		f.cutJoin(b, phiVals)
 	}
@@ -535,7 +561,7 @@ func (f *frame) pushEdge(to *ssa.BasicBlock, cond string) {
 		f.loopBackEdge(f.loops[to], from, cond)
 		return
 	}
-	f.in[to] = append(f.in[to], edgeIn{from: from, cond: cond, st: f.st, ctl: f.edgeCtl})
+	f.in[to] = append(f.in[to], edgeIn{from: from, cond: cond, st: f.st, ctl: f.edgeCtl, br: f.edgeBr})
 }
 
 // keepAt asserts and then assumes the contract's `keep` clauses (join invariants) at a
@@ -547,13 +573,27 @@ func (f *frame) keepAt(where, pos string, at *ssa.BasicBlock) {
 		return
 	}
 	env := x.baseEnv(f.st)
+	if at != nil && f.names != nil {
+		st := f.st
+		env.lookup = func(name string) (Val, bool) { return f.lookupName(name, at, st) }
+	}
 	for i := range x.top.Keeps {
 		c := x.top.Keeps[i]
 		if !f.keepActive(&c, at) {
 			continue
 		}
-		t := x.evalClause(env, &c)
-		f.assert(fmt.Sprintf("keep.%s.%s", where, clauseName(&c, i)), "join invariant holds: "+c.Text, t, &c, pos)
+		parts := SplitConj(c.Expr)
+		for j, pe := range parts {
+			pc := c
+			pc.Expr = pe
+			name := fmt.Sprintf("keep.%s.%s", where, clauseName(&c, i))
+			if len(parts) > 1 {
+				name = fmt.Sprintf("%s.%d", name, j+1)
+				pc.Text = SpecString(pe)
+			}
+			t := x.evalClause(env, &pc)
+			f.assert(name, "join invariant holds: "+pc.Text, t, &pc, pos)
+		}
 	}
 	all := map[string]bool{}
 	for k := range f.st.heap {
@@ -618,6 +658,60 @@ func (f *frame) reaches(a, b *ssa.BasicBlock) bool {
 	return dfs(a)
 }
 
+// simpleJoin: the branches that meet at b (everything between b's immediate dominator
+// and b) contain no calls, no loops and no nested joins.  Such a diamond is merged the
+// ordinary way instead of being cut: nothing is forgotten, and it adds almost no history.
+func (f *frame) simpleJoin(b *ssa.BasicBlock) bool {
+	d := b.Idom()
+	if d == nil {
+		return false
+	}
+	// a join that only returns: nothing follows that a cut could make cheaper, and the
+	// postconditions need what the last branches did
+	if _, ok := b.Instrs[len(b.Instrs)-1].(*ssa.Return); ok {
+		plain := true
+		for _, in := range b.Instrs {
+			switch in.(type) {
+			case *ssa.Call, *ssa.Go, *ssa.Defer, *ssa.RunDefers, *ssa.Select, *ssa.Send:
+				plain = false
+			}
+		}
+		if plain {
+			return true
+		}
+	}
+	seen := map[*ssa.BasicBlock]bool{}
+	var stack []*ssa.BasicBlock
+	for _, p := range b.Preds {
+		if p != d {
+			stack = append(stack, p)
+		}
+	}
+	for len(stack) > 0 {
+		n := stack[len(stack)-1]
+		stack = stack[:len(stack)-1]
+		if seen[n] {
+			continue
+		}
+		seen[n] = true
+		if f.loops[n] != nil || len(n.Preds) != 1 || len(seen) > 4 {
+			return false
+		}
+		for _, in := range n.Instrs {
+			switch in.(type) {
+			case *ssa.Call, *ssa.Go, *ssa.Defer, *ssa.RunDefers, *ssa.Select, *ssa.Send, *ssa.Panic, *ssa.Return:
+				return false
+			}
+		}
+		for _, p := range n.Preds {
+			if p != d {
+				stack = append(stack, p)
+			}
+		}
+	}
+	return true
+}
+
 // cutJoin turns a join into a cut point (local mode): everything the branches may have
 // changed is forgotten and only the keep clauses (just proved) and the function-level
 // frame are known afterwards.  Later obligations then depend on the straight-line
@@ -647,8 +741,10 @@ func (f *frame) cutJoin(b *ssa.BasicBlock, phiVals map[*ssa.Phi]Val) {
 	}
 	na := x.vc.Const("alloc.cut", "Int")
 	f.st.heap[allocKey] = na
-	f.cur = x.vc.Def("cut", "Bool", And(pc, app(">=", na, baseAlloc)))
+	// which of the incoming branches was taken (their conditions, not their internals) stays known
+	f.cur = x.vc.Def("cut", "Bool", And(pc, f.br, app(">=", na, baseAlloc)))
 	f.ctl = f.cur
+	f.br = "true"
 	for _, k := range sortedKeys(f.st.heap) {
 		if nf := x.heap.nilFacts(k, f.st.heap[k]); nf != "true" && strings.HasPrefix(f.st.heap[k], "|cut.") {
 			f.assume(nf)
@@ -672,6 +768,10 @@ func (f *frame) cutJoin(b *ssa.BasicBlock, phiVals map[*ssa.Phi]Val) {
 	// carried into later cut points (there they are re-established on the then-current state)
 	f.noCtl = true
 	env := x.baseEnv(f.st)
+	{
+		st := f.st
+		env.lookup = func(name string) (Val, bool) { return f.lookupName(name, b, st) }
+	}
 	for i := range x.top.Keeps {
 		c := x.top.Keeps[i]
 		if c.KF != "" || !f.keepActive(&c, b) {
@@ -778,7 +878,7 @@ func (f *frame) loopHeader(li *loopInfo, phiVals map[*ssa.Phi]Val) {
 		f.assume(x.evalClause(env, &c))
 	}
 	if x.top != nil {
-		kenv := x.baseEnv(f.st)
+		kenv := f.invEnv(li, nil)
 		for i := range x.top.Keeps {
 			c := x.top.Keeps[i]
 			if c.KF == "" && f.keepActive(&c, li.header) {
@@ -788,6 +888,7 @@ func (f *frame) loopHeader(li *loopInfo, phiVals map[*ssa.Phi]Val) {
 	}
 	f.assume(x.autoFrame(f.st, li.modKeys))
 	f.assume(x.loopFrame(li, f.st))
+	f.br = "true"
 	li.hdr = f.st.clone()
 	li.measure0 = nil
 	for i := range li.spec.Decreases {
@@ -852,7 +953,7 @@ func (f *frame) loopBackEdge(li *loopInfo, from *ssa.BasicBlock, cond string) {
 		}
 	}
 	if x.top != nil {
-		kenv := x.baseEnv(f.st)
+		kenv := f.invEnv(li, over)
 		for i := range x.top.Keeps {
 			c := x.top.Keeps[i]
 			if !f.keepActive(&c, li.header) {
@@ -862,8 +963,10 @@ func (f *frame) loopBackEdge(li *loopInfo, from *ssa.BasicBlock, cond string) {
 			f.assertNoAssume(fmt.Sprintf("keep.loop%d.step.%s", li.ordinal, clauseName(&c, i)), "join invariant preserved by the loop: "+c.Text, t, &c, pos)
 		}
 	}
-	if af := x.autoFrame(f.st, li.modKeys); af != "true" {
-		f.assert(fmt.Sprintf("frame.loop%d", li.ordinal), "writes in the loop stay within the function's modifies clause", af, nil, pos)
+	for _, k := range sortedKeys(li.modKeys) {
+		if af := x.autoFrame(f.st, map[string]bool{k: true}); af != "true" {
+			f.assertNoAssume(fmt.Sprintf("frame.loop%d.%s", li.ordinal, k), "writes in the loop stay within the function's modifies clause: "+k, af, nil, pos)
+		}
 	}
 	for _, k := range sortedKeys(li.modKeys) {
 		if lf := x.loopFrameKey(li, f.st, k); lf != "true" {
@@ -933,6 +1036,16 @@ func (f *frame) invEnv(li *loopInfo, over map[ssa.Value]Val) *Env {
 // lookupName resolves a source-level variable name to its SSA value as visible
 // at block `at`: the closest dominating definition.
 func (f *frame) lookupName(name string, at *ssa.BasicBlock, st *State) (Val, bool) {
+	// a phi named after the variable carries its value from the phi's block on; it wins over
+	// a debug reference in a block further up the dominator tree
+	if at != nil {
+		if phi := f.bestPhi(name, at); phi != nil {
+			best := f.bestRef(name, at)
+			if best == nil || (best.Block() != phi.Block() && best.Block().Dominates(phi.Block())) {
+				return f.regs[phi], true
+			}
+		}
+	}
 	for _, p := range f.fn.Params {
 		if p.Name() == name {
 			// a parameter that is re-assigned shows up as DebugRefs to other values; prefer those that dominate
@@ -957,6 +1070,31 @@ func (f *frame) lookupName(name string, at *ssa.BasicBlock, st *State) (Val, boo
 		return f.refVal(best, st), true
 	}
 	return Val{}, false
+}
+
+func (f *frame) bestPhi(name string, at *ssa.BasicBlock) *ssa.Phi {
+	var best *ssa.Phi
+	for _, b := range f.fn.Blocks {
+		if b != at && !b.Dominates(at) {
+			continue
+		}
+		for _, in := range b.Instrs {
+			phi, ok := in.(*ssa.Phi)
+			if !ok {
+				break
+			}
+			if phi.Comment != name {
+				continue
+			}
+			if _, ok := f.regs[phi]; !ok {
+				continue
+			}
+			if best == nil || best.Block().Dominates(b) {
+				best = phi
+			}
+		}
+	}
+	return best
 }
 
 func (f *frame) bestRef(name string, at *ssa.BasicBlock) *ssa.DebugRef {
